@@ -114,4 +114,14 @@ CHECKS = {
         "note": "Bounded statement: no explored input needs more than 1000 evaluations; nothing is claimed about all inputs. self_collision.detect is exercised by C06.",
         "technique": "bounded-exhaustive degenerate-geometry lattice on the real entry points under a support-call budget and watchdog sandbox",
     },
+    "C13": {
+        "text": ("8 predicates x sizes in the primitive domain x 32 orientations (24 cube rotations, generic, nearly aligned) x offsets; "
+                 "per state ~300 points constructed from boundary features (directions incl. the shape's own axes: apex, rim, corner, "
+                 "face centre) moved along the normal by -s..-2tol and +2tol..+s; each point is classified exactly by the reference "
+                 "model (inscribed ball >= tol => must be True, distance >= tol => must be False), evaluated as a batch and as "
+                 "singletons, and cross-checked with point_to_disk/box/ellipsoid/cylinder and the collider support functions."),
+        "design_ref": "DESIGN.md 5 C13",
+        "note": "Disk (zero thickness): 'inside' is only asserted for points exactly in the plane (axis-aligned normals). Points closer than tol to the boundary are not judged.",
+        "technique": "bounded-exhaustive enumeration of shape lattice x constructed boundary-offset points on the real predicates vs exact reference classification",
+    },
 }
